@@ -85,7 +85,8 @@ CHECKS = {
     "C06": (
         "by-construction oracle: reads generated as exact haplotype copies with every CIGAR shape are passed through the real "
         "ReadSetReader.read; the allele recorded per (fragment, variant) is compared with the haplotype's allele for fully covered "
-        "variants and must be absent for non-overlapping ones; ASan/UBSan lane; valgrind-memcheck lane (thorough)",
+        "variants and must be absent for non-overlapping ones; a lane for multi-allelic records (allele index in the record's own ALT "
+        "order); ASan/UBSan lane; valgrind-memcheck lane (thorough)",
         "Hundreds of thousands of (read, variant) pairs per run over all variant kinds, clips, =/X, N skips, hidden unrelated "
         "variants, contig ends and mate layouts, with and without reference.",
         "Trusted: the simulator's left-normalisation and shift-range computation; 'fully covered' = footprint + shift range + 1 base each side.",
@@ -93,7 +94,7 @@ CHECKS = {
     ),
     "C08": (
         "reference-model monitor: plain forward-backward by enumeration of all read-side vectors (float64) next to the real "
-        "GenotypeDPTable; offline GT/GL/GQ consistency checker on `whatshap genotype` output with the core table interposed; "
+        "GenotypeDPTable, and a factorised formulation of the same model for 11-16 active reads; offline GT/GL/GQ consistency checker on `whatshap genotype` output with the core table interposed; "
         "ASan/UBSan lane; valgrind-memcheck lane (thorough)",
         "Thousands of HMM instances (single, trio, quartet; all weight/prior/recombination strata) agree with the model to 1e-9; "
         "every call of hundreds of end-to-end runs obeys the GT/GL/GQ rule and matches what the core returned.",
@@ -117,9 +118,12 @@ CHECKS = {
     ),
     "C16": (
         "differential monitor over real subprocess executions: hash-seed / thread-count / delay / repetition sweeps per "
-        "subcommand, outputs compared record-wise; probe-set iteration orders and block completion orders logged as evidence of reach",
-        "Every subcommand with an end-to-end input is executed 7-11 times per input under different hash seeds and schedules.",
-        "Sampled seeds and schedules; polyphasegenetic and learn have no usable end-to-end input in the repository.",
+        "subcommand (also the command executed twice in one interpreter), outputs compared record-wise; for `learn` (and, in the "
+        "thorough tier, once per native-heavy subcommand) a run under valgrind memcheck whose repository-frame reports are "
+        "violations (result depends on uninitialised memory) and runs with perturbed heap contents; probe-set iteration orders and "
+        "block completion orders logged as evidence of reach",
+        "Every subcommand with an end-to-end input is executed 8-13 times per input under different hash seeds, schedules and heap states.",
+        "Sampled seeds and schedules; polyphasegenetic has no usable end-to-end input in the repository; --algorithm hapchat/heuristic are not driven.",
         "DESIGN.md §3 C16",
     ),
     "C17": (
@@ -131,7 +135,8 @@ CHECKS = {
     ),
     "C07": (
         "post-condition oracle on readselection's result + invariant/temporal/conservation monitors on the interposed "
-        "coverage monitor (cap after every insertion, check-before-insert, exactly-once charging) over generated and "
+        "coverage monitor (cap after every insertion, check-before-insert, exactly-once charging) and between selection and "
+        "solver (every selected read is handed over) over generated and "
         "bounded-exhaustive read sets; ASan/UBSan lane; valgrind-memcheck lane (thorough)",
         "Thousands of generated read sets and every multiset of <=4 reads over 4 variants are run through the real "
         "selection with the coverage-monitor class replaced by a recording subclass; cap, maximality and the charging "
@@ -223,7 +228,7 @@ def build():
         "checks": checks,
         "notes": "Exit 0 held / only known findings, 1 violation (VIOLATION line), 2 inconclusive. See DESIGN.md section 8 for what "
         "was found and repaired (fix: commits in /repo, known_findings.json 'fixed'), the two recorded findings (C04/C15 INFO END added "
-        "by pysam for symbolic ALT; C06 re-alignment window limit next to unrelated indels) and the 159 seeded changes under seeded/.",
+        "by pysam for symbolic ALT; C06 re-alignment window limit next to unrelated indels) and the 239 seeded changes under seeded/ (seeded/RESULTS.tsv: which check catches which).",
         "not_applicable": [{"property_id": c, "reason": PENDING_REASON} for c in ALL if c not in CHECKS],
     }
     return m
